@@ -248,6 +248,10 @@ C06_BypassSkips(s, e) ==
           /\ D(s, e.obj).b >= 1 => ~BypassedAtCrash(s, D(s, e.obj).b)
     /\ (e.ev = "WaitRet" /\ Live(s)) =>
           \A sc \in 0..NB(s) : (BypassedScope(s, sc) /\ (sc = 0 \/ ~BypassedScope(s, 0))) => SnapOf(e.snap)[ScopeName(sc)].st = CO
+\* a bypass group that gave its answer before the crash (passed or failed, durably) is not asked again by the process
+\* that resumes the plan: "if any bypass check fails the scope runs normally" - also after a restart
+C06_BypassNotAgain(s, e) == (IsP(e) /\ s.crashed /\ D(s, e.obj).k = "cact" /\ D(s, e.obj).g = "bypass") =>
+    ~Terminal(s.cdur[Grp(D(s, e.obj).b, "bypass")].st)
 C06_BypassFailRuns(s, e) == (e.ev = "WaitRet" /\ Live(s)) =>
     \* a failed bypass alone never fails the scope: a Failed scope has a cause other than its bypass group
     \A x \in ToSet(e.snap) : (D(s, x.obj).k = "blk" /\ x.st = FA) =>
@@ -394,7 +398,7 @@ ClauseNames == {
     "C04_WaitReturns", "C04_Terminal", "C04_NothingRunning", "C04_Quiescent", "C04_Stable", "C04_Consistent", "C04_Times", "C04_Reason",
     "C04_FailedCheckFailsPlan",
     "C05_Bound", "C05_StopOnFinal", "C05_OneAttemptPerCall", "C05_Recorded", "C05_Overrun", "C05_AttemptIsItsCall", "C08_FailStop",
-    "C06_BypassSkips", "C06_BypassFailRuns", "C06_PreFailBlocks", "C06_ContInitialFail",
+    "C06_BypassSkips", "C06_BypassNotAgain", "C06_BypassFailRuns", "C06_PreFailBlocks", "C06_ContInitialFail",
     "C07_ContKeepsRunning", "C07_ContFailureFails", "C07_DeferredOnce", "C07_DeferredFails", "C07_DeferredNotAgain", "C07_DeferredAfterAll",
     "C08_RunningBeforeInvoke", "C08_ScopeRunningBeforeInvoke", "C08_AttemptBeforeNext", "C08_TerminalBeforeRelease", "C08_Monotone",
     "C09_NoRedoAction", "C09_NoRedoFinished", "C09_OnlyInFlight",
@@ -419,6 +423,7 @@ Holds(c, s, e) ==
       [] c = "C05_OneAttemptPerCall" -> C05_OneAttemptPerCall(s, e) [] c = "C05_Recorded" -> C05_Recorded(s, e)
       [] c = "C05_Overrun" -> C05_Overrun(s, e) [] c = "C05_AttemptIsItsCall" -> C05_AttemptIsItsCall(s, e) [] c = "C08_FailStop" -> C08_FailStop(s, e)
       [] c = "C06_BypassSkips" -> C06_BypassSkips(s, e) [] c = "C06_BypassFailRuns" -> C06_BypassFailRuns(s, e)
+      [] c = "C06_BypassNotAgain" -> C06_BypassNotAgain(s, e)
       [] c = "C06_PreFailBlocks" -> C06_PreFailBlocks(s, e) [] c = "C06_ContInitialFail" -> C06_ContInitialFail(s, e)
       [] c = "C07_ContKeepsRunning" -> C07_ContKeepsRunning(s, e) [] c = "C07_ContFailureFails" -> C07_ContFailureFails(s, e)
       [] c = "C07_DeferredOnce" -> C07_DeferredOnce(s, e) [] c = "C07_DeferredFails" -> C07_DeferredFails(s, e)
@@ -447,7 +452,7 @@ Violated(s, e) == {c \in ClauseNames : ~Holds(c, s, e)}
 (* it agrees with Violated at every step, so the table cannot silently switch a clause off.                      *)
 ClausesFor(t) ==
   CASE t = "PStart" -> {"C01_BlockOrder", "C01_ActionOrder", "C01_PreGate", "C01_PostAfterSeqs", "C01_DeferredLast", "C02_Bound", "C02_OneBlock",
-                        "C03_AfterFailedBlock", "C04_Quiescent", "C05_Bound", "C05_StopOnFinal", "C06_BypassSkips", "C06_PreFailBlocks",
+                        "C03_AfterFailedBlock", "C04_Quiescent", "C05_Bound", "C05_StopOnFinal", "C06_BypassSkips", "C06_BypassNotAgain", "C06_PreFailBlocks",
                         "C06_ContInitialFail", "C08_RunningBeforeInvoke", "C08_ScopeRunningBeforeInvoke", "C08_AttemptBeforeNext", "C09_NoRedoAction", "C09_NoRedoFinished",
                         "C09_OnlyInFlight", "C10_Quiescent", "C11_Untouched", "C11_AgedOut", "C12_AtMostOnce", "C07_DeferredNotAgain", "C07_DeferredAfterAll", "C08_FailStop"}
     [] t = "W" -> {"C07_DeferredFails", "C03_Bound", "C03_StopExact", "C03_BlockVerdict", "C04_Quiescent", "C05_OneAttemptPerCall", "C05_AttemptIsItsCall", "C06_ContInitialFail",
